@@ -665,7 +665,8 @@ def r7_local_clean(ctx):
         cl = corpus.method(ci, 'clean')
         if cl is None:
             continue
-        gens = [m for m in ci.methods.values() if any(isinstance(y, ast.Yield) for y in walk_local(m.node)) and any((dotted(c.func) or '') == 'os.scandir' for c in calls_in(m.node)) and any(isinstance(a, ast.Attribute) and a.attr == m.name for a in ast.walk(cl.node))]
+        pool = list(ci.methods.values()) + list(ci.module.functions.values())
+        gens = [m for m in pool if any(isinstance(y, ast.Yield) for y in walk_local(m.node)) and any((dotted(c.func) or '') == 'os.scandir' for c in calls_in(m.node)) and any((isinstance(a, ast.Attribute) and a.attr == m.name) or (isinstance(a, ast.Name) and a.id == m.name) for a in ast.walk(cl.node))]
         if not gens:
             if any((dotted(c.func) or '').endswith('rmdir') for c in calls_in(cl.node)):
                 raise AnalysisError(f'C03.R7: {ci.name}.clean removes directories but the scan that decides emptiness was not found')
@@ -679,7 +680,15 @@ def r7_local_clean(ctx):
                 if not withs and not (isinstance(it, ast.Call) and (dotted(it.func) or '') == 'os.scandir'):
                     continue
                 ev = lp.target.id
-                ys = [enclosing_stmt(y) for y in walk_local(lp) if isinstance(y, ast.Yield) and isinstance(y.value, ast.Tuple) and len(y.value.elts) == 2 and isinstance(y.value.elts[0], ast.Name) and y.value.elts[0].id == ev]
+                def _parts(v):
+                    # (entry, flag) as a tuple or as a small record built from the two
+                    if isinstance(v, ast.Tuple):
+                        return list(v.elts)
+                    if isinstance(v, ast.Call) and not isinstance(v.func, ast.Attribute):
+                        return list(v.args) + [k.value for k in v.keywords]
+                    return []
+
+                ys = [enclosing_stmt(y) for y in walk_local(lp) if isinstance(y, ast.Yield) and y.value is not None and len(_parts(y.value)) == 2 and any(isinstance(e_, ast.Name) and e_.id == ev for e_ in _parts(y.value))]
                 n += 1
                 ynodes = [x for y in ys for x in cfg.nodes_of(y, 'stmt')]
                 heads = cfg.nodes_of(lp, 'loop')
@@ -696,16 +705,29 @@ def r7_local_clean(ctx):
                     'rmdir fails with ENOTEMPTY on every retry and the follow-up `clean` fails',
                 )
                 for y in ys:
-                    flag = y.value.value.elts[1] if isinstance(y.value, ast.Yield) else None
-                    yv = [v for v in walk_local(y) if isinstance(v, ast.Yield)][0].value.elts[1]
+                    yparts = _parts([v for v in walk_local(y) if isinstance(v, ast.Yield)][0].value)
+                    others = [e_ for e_ in yparts if not (isinstance(e_, ast.Name) and e_.id == ev)]
+                    yv = others[0] if others else None
                     if not isinstance(yv, ast.Name):
                         continue
                     falses = [x for a in walk_local(lp) if isinstance(a, ast.Assign) and any(isinstance(t, ast.Name) and t.id == yv.id for t in a.targets) and isinstance(a.value, ast.Constant) and a.value.value is False for x in cfg.nodes_of(a, 'stmt')]
-                    dir_tests = [i for i in walk_local(lp) if isinstance(i, ast.If) and any(isinstance(c, ast.Call) and isinstance(c.func, ast.Attribute) and c.func.attr == 'is_dir' and isinstance(c.func.value, ast.Name) and c.func.value.id == ev for c in ast.walk(i.test))]
+                    def _is_dir_test(t):
+                        while isinstance(t, ast.UnaryOp) and isinstance(t.op, ast.Not):
+                            t = t.operand
+                        if isinstance(t, ast.Name):
+                            t = deref_at(g.node, t)
+                        return any(isinstance(c, ast.Call) and isinstance(c.func, ast.Attribute) and c.func.attr == 'is_dir' and isinstance(c.func.value, ast.Name) and c.func.value.id == ev for c in ast.walk(t))
+
+                    dir_tests = [i for i in walk_local(lp) if isinstance(i, ast.If) and _is_dir_test(i.test)]
                     ctx.floor('C03.R7', f'is_dir test on the scanned entry in {g.name}', len(dir_tests))
                     for i in dir_tests:
                         neg = isinstance(i.test, ast.UnaryOp) and isinstance(i.test.op, ast.Not)
                         nondir = cfg.nodes_of(i, 'true' if neg else 'false')
+                        tn = i.test.operand if neg else i.test
+                        if isinstance(tn, ast.Name) and tn.id == yv.id:
+                            # the flag IS the is_dir() answer: on the non-directory edge it is False by the test itself
+                            ctx.ok('C03.R7', loc(g, y), f'{g.qual}: the reported flag is the is_dir() answer itself, False for a non-directory entry')
+                            continue
                         leak = None
                         for e in nondir:
                             leak = leak or cfg.path(e, cfg.nodes_of(y, 'stmt'), avoid=falses + heads, kinds=('normal',))
